@@ -204,6 +204,9 @@ func (r *joeReplayer) pre(kind string) string {
 func (r *joeReplayer) Put(m *sse.Message, topics []string) (*sse.Message, error) {
 	switch r.pre("put") {
 	case "err":
+		if r.calls%2 == 0 {
+			return m, errPut // a replayer may hand back the message along with its error: the error counts all the same
+		}
 		return nil, errPut
 	case "panic":
 		panic("verif: replayer panic in Put")
